@@ -35,7 +35,7 @@ package ancestor
 //@   loop 1 invariant 0 <= _k && _k <= len(existingParents) && optionsSet != nil
 //@   loop 1 invariant forall(h hash.Event, has(optionsSet, h) == (inL(options, len(options), h) && !inL(existingParents, _k, h)))
 //@   loop 2 modifies optionsSet[*], parents[*]
-//@   loop 2 invariant arrof(parents) == arrof(atentry(parents)) || arrof(parents) >= _loopalloc
+//@   loop 2 invariant arrof(parents) == arrof(atentry(parents)) || arrfresh(parents, _loopalloc)
 //@   loop 2 invariant 0 <= i && i <= len(strategies) && len(parents) == len(existingParents) + i && optionsSet != nil
 //@   loop 2 invariant forall(j, 0, len(existingParents), parents[j] == existingParents[j])
 //@   loop 2 invariant forall(h hash.Event, inL(parents, len(existingParents), h) == inL(existingParents, len(existingParents), h))
